@@ -20,8 +20,8 @@ import (
 	"strings"
 	"sync"
 	"sync/atomic"
-	"testing"
 	"syscall"
+	"testing"
 	"testing/synctest"
 	"time"
 	"unsafe"
@@ -61,8 +61,9 @@ func (s Sched) Compact() string {
 type scen struct {
 	netx.Scenario
 	setup    *netx.Setup
-	maxBound int // deviation bound explored for this scenario
-	maxSil   int // f
+	maxBound int  // deviation bound explored for this scenario
+	allTxs   bool // every transaction of TxAt must be on chain when the path completes
+	maxSil   int  // f
 }
 
 // Replay artefact / violation detail.
@@ -238,8 +239,8 @@ func run(t *testing.T, sc *scen, s Sched, o runOpts) (res *result) {
 						add(step, []netx.Problem{{Oracle: "carry", Text: fmt.Sprintf("block %d (view %d) contains %s which was not in the primary's verified mempool", c.Height, pr.View, h[:12])}})
 					}
 				}
-				if pr.View == 0 && len(c.Txs) != len(pr.PoolSnap) && len(pr.PoolSnap) <= 512 {
-					add(step, []netx.Problem{{Oracle: "carry", Text: fmt.Sprintf("block %d (view 0, primary %d) carries %d of the %d transactions pooled at the primary", c.Height, c.Prim, len(c.Txs), len(pr.PoolSnap))}})
+				if pr.View == 0 && strings.Join(c.Txs, ",") != strings.Join(pr.Expect, ",") {
+					add(step, []netx.Problem{{Oracle: "carry", Text: fmt.Sprintf("block %d (view 0, primary %d) carries %d transactions %v; the limit-respecting prefix of the %d transactions pooled at the primary is %v", c.Height, c.Prim, len(c.Txs), shorts(c.Txs), len(pr.PoolSnap), shorts(pr.Expect))}})
 				} else {
 					res.CarryOK++
 				}
@@ -276,6 +277,11 @@ func run(t *testing.T, sc *scen, s Sched, o runOpts) (res *result) {
 		}
 		if res.End != "error" {
 			add(res.Steps, w.CatchUp())
+		}
+		if res.End == "done" && sc.allTxs && !w.AnySilent() {
+			if miss := w.MissingOnChain(0); len(miss) > 0 {
+				res.Problems = append(res.Problems, problem{"carry", fmt.Sprintf("after %d blocks the pending valid transactions %v are still not on chain", sc.Heights, miss), res.Steps - 1})
+			}
 		}
 		// liveness: every state owned by this schedule (after its last deviation)
 		// in which nobody is silenced must be followed, within liveBound default
@@ -328,6 +334,14 @@ func realNano() int64 {
 	return ts.Nano()
 }
 
+func shorts(hs []string) []string {
+	out := make([]string, len(hs))
+	for i, h := range hs {
+		out[i] = h[:min(8, len(h))]
+	}
+	return out
+}
+
 func stateNote(mn, mx uint32) string { return fmt.Sprintf("heights %d..%d", mn, mx) }
 
 // ---- the check ----------------------------------------------------------------------------
@@ -356,6 +370,18 @@ func scenarios(r *vk.Run, dir string) ([]*scen, error) {
 	out = append(out, &scen{setup: famV, maxBound: 1, maxSil: 1, Scenario: netx.Scenario{
 		Name: "n4-epoch", Family: "n4vote", Heights: 2,
 		TxAt: map[string][]int{"t0": {2}, "t2": all4},
+	}})
+	famS, err := netx.NewSetup(netx.Family{Name: "n4sat", N: 4, Sat: true}, dir)
+	if err != nil {
+		return nil, err
+	}
+	// Saturated pools: every validator holds the same two big transactions
+	// (system fees sum to MaxBlockSystemFee+2) and a small one of its own. The
+	// packing policy must stop before the limit, or honest backups reject every
+	// proposal and no block is ever produced.
+	out = append(out, &scen{setup: famS, maxBound: 1, maxSil: 1, allTxs: true, Scenario: netx.Scenario{
+		Name: "n4-saturated", Family: "n4sat", Heights: 4,
+		TxAt: map[string][]int{"bigA": all4, "bigB": all4, "s0": {0}, "s1": {1}, "s2": {2}, "s3": {3}},
 	}})
 	if r.Thorough() || os.Getenv("C19_N7") != "" {
 		fam7, err := netx.NewSetup(netx.Family{Name: "n7", N: 7}, dir)
@@ -632,21 +658,21 @@ func TestCheck(t *testing.T) {
 		n7 = fmt.Sprintf("built with 7 generated standby validators; completed deviation bound %d over %d height(s)", completed["n7-base"], sc.Heights)
 	}
 	r.Finish(map[string]any{
-		"states":                        int(states.Get()),
-		"transitions":                   int(transitions.Get()),
-		"traces_validated_against_impl": int(schedules.Get()),
-		"schedules":                     int(schedules.Get()),
-		"schedules_pruned_by_state_hash": int(pruned.Get()),
-		"completed_bound_per_scenario":  completed,
-		"completed_bound_all":           minCompleted,
-		"schedules_per_bound":           levelSizes,
-		"distinct_final_outcomes":       stateDist.Len(),
-		"scenarios":                     scNames,
-		"n7_status":                     n7,
-		"liveness_step_bound":           map[string]int{"N=4": liveBound4, "N=7": liveBound7},
-		"liveness_max_steps_observed":   int(maxLive.Load()),
+		"states":                           int(states.Get()),
+		"transitions":                      int(transitions.Get()),
+		"traces_validated_against_impl":    int(schedules.Get()),
+		"schedules":                        int(schedules.Get()),
+		"schedules_pruned_by_state_hash":   int(pruned.Get()),
+		"completed_bound_per_scenario":     completed,
+		"completed_bound_all":              minCompleted,
+		"schedules_per_bound":              levelSizes,
+		"distinct_final_outcomes":          stateDist.Len(),
+		"scenarios":                        scNames,
+		"n7_status":                        n7,
+		"liveness_step_bound":              map[string]int{"N=4": liveBound4, "N=7": liveBound7},
+		"liveness_max_steps_observed":      int(maxLive.Load()),
 		"worker_seconds_setup_steps_close": []float64{float64(tSetup.Load()) / 1e9, float64(tSteps.Load()) / 1e9, float64(tClose.Load()) / 1e9},
-		"rule":                          "schedule = synchronous default schedule (due timers, FIFO deliveries, block hand-over to laggards, earliest timer) with <= bound deviations (drop, reorder within a receiver, duplicate, early/other timer, unrequested tx relay, early block hand-over, silence <= f, un-silence); deviations only on events of the default event's owner (receiver independence); state = digest of per-node ledger/mempool/dBFT context/timer + ordered pending list; a schedule stops where it reaches a state already reached with no more deviations",
+		"rule":                             "schedule = synchronous default schedule (due timers, FIFO deliveries, block hand-over to laggards, earliest timer) with <= bound deviations (drop, reorder within a receiver, duplicate, early/other timer, unrequested tx relay, early block hand-over, silence <= f, un-silence); deviations only on events of the default event's owner (receiver independence); state = digest of per-node ledger/mempool/dBFT context/timer + ordered pending list; a schedule stops where it reaches a state already reached with no more deviations",
 	}, []string{
 		"network-layer filtering (extensible pool signature/height checks, deduplication) is not in the loop: payloads reach OnPayload directly after a serialise/parse round trip; all senders are honest (silent = crash/partition faults, no Byzantine payloads)",
 		"the state digest abstracts from timestamps and signatures; pruning on it may merge states that differ only there",
